@@ -496,11 +496,7 @@ Fixpoint emb_offsets (pos : N) (vals : list bytes) : list N :=
 Definition set_voff (e : entry) (o : N) : entry :=
   {| e_md := e_md e; e_key := e_key e; e_vlen := e_vlen e; e_voff := o; e_hval := e_hval e |}.
 
-(* `stale`: the BlRoot that the pooled tx holder still contains from its previous use (the last
-   transaction written or READ through it, or arbitrary bytes parsed by OpenWith's scan). It is an
-   input of the step: performPrecommit assigns tx.header.BlRoot only when blTxID > 0, so for
-   blTxID = 0 this is what gets hashed and stored. *)
-Definition locked (s : state) (c : N) (stale : bytes) : state * out :=
+Definition locked (s : state) (c : N) : state * out :=
   match find_pend s c with
   | None => (s, Err ENoPending)
   | Some q =>
@@ -523,7 +519,8 @@ Definition locked (s : state) (c : N) (stale : bytes) : state * out :=
       if c_synced cf && (s_committed s + c_maxactive cf <=? s_inmem s) then (s, Err EMaxActive) else
       let s := tl_set_offset s in
       let id := s_inmem s + 1 in
-      match (if 0 <? bltxid then aht_root_tolerant (s_aht s) bltxid else Ok stale) with
+      (* tx.header.BlRoot is cleared, then assigned when blTxID > 0 *)
+      match (if 0 <? bltxid then aht_root_tolerant (s_aht s) bltxid else Ok zeros32) with
       | Err e => (s, Err e) | Panic => (s, Panic)
       | Ok blroot =>
         if id <=? bltxid then (s, Err ELinking) else
@@ -662,39 +659,47 @@ Fixpoint relink (fuel : nat) (s : state) (aht : list bytes) (k : N) (prev : opti
       relink f s (aht ++ [a]) (k + 1) (Some a)
   end.
 
-Definition reopen (s : state) : state * out :=
-  let cf := s_cfg s in
+(* the last committed transaction as OpenWith validates it: (committedAlh, committedTxLogSize) *)
+Definition reopen_r0 (s : state) : res (bytes * N) :=
   let committed := lenN (s_clog s) in
-  let r0 : res (bytes * N) :=      (* committedAlh, committedTxLogSize *)
-    if committed =? 0 then Ok (H [], 0) else
-    match nth_error (s_clog s) (N.to_nat (committed - 1)) with
-    | None => Err ECorruptedTx
-    | Some ce =>
-        match tl_read (s_txlog s) (ce_off ce) with
-        | None => Err ECorruptedTx
-        | Some w =>
-            if negb (rec_size (w_rec w) =? ce_size ce) then Err ECorruptedTx else
-            do a <- alh_of (r_hdr (w_rec w));
-            if negb (list_eq_dec_b a (r_alh (w_rec w))) then Err ECorruptedTx else
-            if negb (list_eq_dec_b a (ce_alh ce)) then Err ECorruptedTx else
-            Ok (ce_alh ce, ce_off ce + ce_size ce)
-        end
-    end in
-  match r0 with
+  if committed =? 0 then Ok (H [], 0) else
+  match nth_error (s_clog s) (N.to_nat (committed - 1)) with
+  | None => Err ECorruptedTx
+  | Some ce =>
+      match tl_read (s_txlog s) (ce_off ce) with
+      | None => Err ECorruptedTx
+      | Some w =>
+          if negb (rec_size (w_rec w) =? ce_size ce) then Err ECorruptedTx else
+          do a <- alh_of (r_hdr (w_rec w));
+          if negb (list_eq_dec_b a (r_alh (w_rec w))) then Err ECorruptedTx else
+          if negb (list_eq_dec_b a (ce_alh ce)) then Err ECorruptedTx else
+          Ok (ce_alh ce, ce_off ce + ce_size ce)
+      end
+  end.
+
+(* the store as OpenWith builds it, before the binary-linking tree is aligned *)
+Definition reopen_state (s : state) (calh : bytes) (b : pbuf) (pid : N) (palh : bytes) (ptls : N) : state :=
+  {| s_cfg := s_cfg s; s_txlog := s_txlog s; s_clog := s_clog s; s_vlog := s_vlog s; s_vsize := s_vsize s;
+     s_aht := s_aht s; s_committed := lenN (s_clog s); s_calh := calh; s_inmem := pid; s_ialh := palh;
+     s_ptls := ptls; s_tlnf := 0; s_buf := b; s_ext := c_ext0 (s_cfg s); s_allowed := lenN (s_clog s);
+     s_whub := pid; s_pend := []; s_wait := [] |}.
+
+Definition reopen (s : state) : state * out :=
+  let committed := lenN (s_clog s) in
+  match reopen_r0 s with
   | Err e => (s, Err e) | Panic => (s, Panic)
   | Ok (calh, ctls) =>
-    match reload (S (length (s_txlog s))) (s_txlog s) (pb_new (c_maxactive cf)) committed calh ctls with
+    match reload (S (length (s_txlog s))) (s_txlog s) (pb_new (c_maxactive (s_cfg s))) committed calh ctls with
     | Err e => (s, Err e) | Panic => (s, Panic)
     | Ok (b, pid, palh, ptls) =>
-      let s1 :=
-        {| s_cfg := cf; s_txlog := s_txlog s; s_clog := s_clog s; s_vlog := s_vlog s; s_vsize := s_vsize s;
-           s_aht := s_aht s; s_committed := committed; s_calh := calh; s_inmem := pid; s_ialh := palh;
-           s_ptls := ptls; s_tlnf := 0; s_buf := b; s_ext := c_ext0 cf; s_allowed := committed; s_whub := pid;
-           s_pend := []; s_wait := [] |} in
-      if pid <? lenN (s_aht s1) then (upd_aht s1 (firstn (N.to_nat pid) (s_aht s1)), ok0)
-      else if lenN (s_aht s1) =? pid then (s1, ok0)
+      let s1 := reopen_state s calh b pid palh ptls in
+      (* the leaves beyond the committed transactions are not trusted (they may belong to precommitted
+         transactions that were discarded and replaced): reset, then syncBinaryLinking re-appends the
+         Alh of the transactions that were actually reloaded *)
+      let a1 := if committed <? lenN (s_aht s1) then firstn (N.to_nat committed) (s_aht s1) else s_aht s1 in
+      if lenN a1 =? pid then (upd_aht s1 a1, ok0)
       else
-        match relink (N.to_nat (pid - lenN (s_aht s1))) s1 (s_aht s1) (lenN (s_aht s1) + 1) None with
+        match relink (N.to_nat (pid - lenN a1)) s1 a1 (lenN a1 + 1) None with
         | Ok a => (upd_aht s1 a, ok0)
         | Err e => (s, Err e)
         | Panic => (s, Panic)
@@ -705,7 +710,7 @@ Definition reopen (s : state) : state * out :=
 (* ---- the machine ------------------------------------------------------------------------- *)
 Inductive op :=
 | OBegin (c : N) (p : txspec) (exp : option txhdr) (skipic : bool)
-| OLocked (c : N) (stale : bytes)
+| OLocked (c : N)
 | OSync
 | OAllow (n : N)
 | ODiscard (n : N)
@@ -715,7 +720,7 @@ Inductive op :=
 Definition step (s : state) (o : op) : state * out :=
   match o with
   | OBegin c p exp sk => begin s c p exp sk
-  | OLocked c stale => locked s c stale
+  | OLocked c => locked s c
   | OSync => sync s
   | OAllow n => allow s n
   | ODiscard n => discard s n
